@@ -17,10 +17,18 @@ CLAIMED = {
    text="Machine-checked proof (Lean 4, full): one *_spec theorem per exported function of pkg/slice (40 theorems) proving, for all heaps, all valid slice values (any offset/len/cap), all element types and callbacks, that the function returns exactly its List specification (map, mapIdx, filter, flatMap, flatten, ++, take/drop, head?/tail/getLast?/dropLast, zipWith, foldl, all/any/find?, first-occurrence de-duplication, sorted permutation) under exactly the domain guard the Go code has, plus *_panics theorems for the error branches. Tied to /repo by the regenerated function inventory and by exhaustive small-slice x every-function x every-parameter correspondence runs against the real package.",
    design="§5 C13", technique="Lean 4 theorems (loop invariants over a Go slice heap model) + exhaustive small-domain correspondence with the real package",
    note="Trusted: Lean kernel; the heap model; slices.SortFunc assumed to leave an ascending permutation (checked on every observed call); the named callback family is implemented twice (Go, Lean). Integers unbounded in the model."),
+ "C01": dict(
+   text="Machine-checked proof (Lean 4, PARTIAL): the full statement C01_full (a verified-compiler theorem for parser + inference + emitter) is stated, NOT proved. Proved, for all inputs: the mechanisms named by the property's anchors — operator grouping (C08 climb_eq_group), thunked if/else branches and pipe = application (C14 ifElse_*, ifOnly_false, pipe_spec), match dispatch to the constructing case (C09 dispatch_total), literals and interpolation (C11_*) — and the partial-application lowering: papp_agrees_when_pure (trace and values preserved for effect-free given arguments, any body, any later calls) with the witness papp_effects_late for known finding D9. The reference semantics is executable Lean (strict, left-to-right, lexically scoped big-step evaluator with an output trace) and is compared on every run with the stdout of the real pipeline's output, compiled and run, on type-directed random programs over the documented subset + a boundary corpus. Known findings D9, D12, D17.",
+   design="§5 C01", technique="Lean 4 theorems on the lowering mechanisms + Lean reference evaluator vs compiled output of the real pipeline on generated programs (translation validation as the tie/search; no end-to-end compiler proof)",
+   note="Trusted: Lean kernel; the reference evaluator as the meaning of abstract programs; the generator's renderer; the Go toolchain. Not proved: text->IR correctness, inference, emission as a whole."),
  "C05": dict(
    text="Machine-checked proof (Lean 4) of every enumeration consumer + regenerated inventory: eqsUnion_order_indep, rsRegisterNewEI_order_indep, piRegAll_order_indep, lookupRecFac_order_indep (after fix 5aa1ab1; witness lookup_unfixed_order_dependent for the old code), exhaustive_decision_order_indep prove for ALL pairs of enumeration orders that what the rest of the compiler observes (dictionary as a finite map, accept/reject decision, chosen record) is the same; fact_enumSites proves by decide that the REGENERATED list of dict.Keys/Values/KVs calls, map range loops, goroutines, time/rand/environment/%p uses in fc, pkg and cmd is exactly these consumers. The composition into byte-identical output is argued (DESIGN.md) and tied by running fc built against an adversarial permuting dict package (overlay) under several seeds and the stock binary repeatedly on a corpus incl. the 12 compiler sources.",
    design="§5 C05", technique="Lean 4 order-independence theorems per consumer + decide over a regenerated site inventory + permuted-dictionary metamorphic runs",
    note="Trusted: Lean kernel; dict model of C14; go/ast site extractor (syntactic); composition argued, not proved; slices.SortFunc by name returns the unique ascending arrangement (names are distinct keys)."),
+ "C06": dict(
+   text="Machine-checked proof (Lean 4, PARTIAL): col_invariant proves for EVERY byte string and every state reachable by tkzNext from newTkz in the byte-level tokenizer model (tied to the real tokenizer incl. columns on every run) that the column the parser sees is current.begin minus the end of the last EOL token: exactly the physical column unless a newline hides inside a comment or literal (the forced hypothesis: known findings D10, D13). The full statement C06_full (emitted Go invariant under every re-layout) is stated, NOT proved; it is tied by the layout stream: each abstract program is rendered under many random layouts (independent indentation per block, blank lines, trailing blanks, line/block comments, one-line vs multi-line if, let right-hand side / arm body on the same or next line, pipeline broken before any |>) through the real compiler and the Go must be byte-identical; plus the dedent test. Known finding D15 (dedented operator line).",
+   design="§5 C06", technique="Lean 4 invariant proof on the tokenizer model + layout metamorphic runs through the real compiler (parser-level theorems not built)",
+   note="Trusted: Lean kernel; tokenizer model correspondence; the layout renderer of the generator. The parser's offside logic is not modelled."),
  "C08": dict(
    text="Machine-checked proof (Lean 4): climb_eq_group proves for EVERY operator chain (any length, operators, operands, any precedence table) that the recursion scheme of parseExprWithPrec/parseBinAfter (minPrec, Precedence+1 for the right operand) returns the reference grouping (insertion into the right spine = grouping by rank, left-associative; validated by group_flatten, group_canon); table_is_published proves by decide that the REGENERATED binOpMap equals the published table, fact_precedenceUses pins the comparison and the +1. Partial at token level: the token parser with psSkipEOL and the term parser (application, not, parentheses) is an executable model tied by execution (every oracle answer re-checked against group) and by the c08.chain correspondence with the real parser+emitter (all chains of <=3/4 of the 12 operators x 3 operand shapes exhaustively, random chains with pipes/not/parens/line breaks), not by a Lean refinement proof.",
    design="§5 C08", technique="Lean 4 theorem (precedence climbing = reference grouping, induction on fuel) + decide over regenerated table + exhaustive/ random correspondence through the real parser and emitter",
